@@ -50,12 +50,13 @@ theorem cur_getTemplate {home : Uri → Dir} {cfg : Cfg} {s : State} (h : Cur ho
       rw [check_vanished hfile (by rw [hfs1]; exact hfs), hspec]
       exact ⟨by simp [viewGet], cur_sub h1 (erase_sublist _ _)⟩
     | some file =>
-      have hspec : specAt cfg.ndirs s.fs u = (if file.broken then .broken else .content file.content) := by
+      have hspec : specAt cfg.ndirs s.fs u =
+          (if file.broken then .broken else if file.late then .late else .content file.content) := by
         rw [specAt_of_home h hlt, hfs]
       by_cases hk : file.mtime ≤ e.val.stamp
       · rw [check_keep hfile (by rw [hfs1]; exact hfs) hk, hspec]
-        obtain ⟨hb, hcont⟩ := hcur file hfs hk
-        exact ⟨by simp [viewGet, hb, hcont], h1⟩
+        obtain ⟨hb, hl, hcont⟩ := hcur file hfs hk
+        exact ⟨by simp [viewGet, hb, hl, hcont], h1⟩
       · have hlt' : e.val.stamp < file.mtime := by omega
         have h2 : Cur home cfg { stampHit s u with coll := erase (stampHit s u).coll u } :=
           cur_sub h1 (erase_sublist _ _)
@@ -65,7 +66,7 @@ theorem cur_getTemplate {home : Uri → Dir} {cfg : Cfg} {s : State} (h : Cur ho
         have hne : (load cfg { stampHit s u with coll := erase (stampHit s u).coll u } u (home u, u)).1 ≠ .error .os := by
           intro hh
           rw [hh, hspec] at hl1
-          cases hb : file.broken <;> simp [viewGet, hb] at hl1
+          cases hb : file.broken <;> cases hl : file.late <;> simp [viewGet, hb, hl] at hl1
         rw [check_stale_eq_load hfile (by rw [hfs1]; exact hfs) hlt' hne]
         exact ⟨hl1, hl.2⟩
 
@@ -80,6 +81,7 @@ def settledFrom (home : Uri → Dir) : Bool → List Op → Bool
   | fl, .writeFile d u _ :: r => fl && d == home u && settledFrom home fl r
   | fl, .deleteFile d u :: r => fl && d == home u && settledFrom home fl r
   | fl, .breakFile d u :: r => fl && d == home u && settledFrom home fl r
+  | fl, .breakFileLate d u :: r => fl && d == home u && settledFrom home fl r
   | _, .getTemplate _ :: r => settledFrom home false r
   | _, .hasTemplate _ :: r => settledFrom home false r
   | _, .putString _ _ :: _ => false
@@ -127,10 +129,12 @@ theorem older_setFs {s : State} (ho : Older s) (fs : FileRef → Option File) : 
 theorem contentView_get (cfg : Cfg) (s : State) (u : Uri) :
     contentView (step cfg s (.getTemplate u)).1 =
       (match viewGet (getTemplate cfg s u).1 with
-        | .content c => .ok 0 c | .missing => .exc .lookup | .broken => .exc .compile | .other => .exc .os) ∧
+        | .content c => .ok 0 c | .missing => .exc .lookup | .broken => .exc .compile | .late => .exc .late
+        | .other => .exc .os) ∧
     contentView (step cfg s (.hasTemplate u)).1 =
       (match viewGet (getTemplate cfg s u).1 with
-        | .content _ => .has true | .missing => .has false | .broken => .exc .compile | .other => .exc .os) := by
+        | .content _ => .has true | .missing => .has false | .broken => .exc .compile | .late => .exc .late
+        | .other => .exc .os) := by
   rcases hg : getTemplate cfg s u with ⟨r, s'⟩
   cases r with
   | ok t => simp [step, hg, viewGet, contentView]
@@ -172,6 +176,12 @@ theorem cur_step {home : Uri → Dir} {cfg : Cfg} {s : State} (hck : cfg.checks 
     subst h2
     refine ⟨rfl, rfl, rfl, cur_setFs h (hfl h1) u _ (by intro f hf; injection hf with hf; subst hf; rfl), fl, ?_, h3⟩
     intro hf; exact hfl hf
+  | breakFileLate d u =>
+    simp only [settledFrom, Bool.and_eq_true, beq_iff_eq] at hg
+    obtain ⟨⟨h1, h2⟩, h3⟩ := hg
+    subst h2
+    refine ⟨rfl, rfl, rfl, cur_setFs h (hfl h1) u _ (by intro f hf; injection hf with hf; subst hf; rfl), fl, ?_, h3⟩
+    intro hf; exact hfl hf
   | getTemplate u =>
     obtain ⟨hv, hc⟩ := cur_getTemplate h hck u
     refine ⟨?_, ?_, ?_, ?_, false, (by intro hf; cases hf), hg⟩
@@ -206,17 +216,57 @@ theorem cur_init (home : Uri → Dir) (cfg : Cfg) : Cur home cfg init :=
 theorem older_init : Older init :=
   ⟨by intro p hp; simp [init] at hp, by intro k m hm; simp [init] at hm⟩
 
+/-- after any exception out of `get_template` other than `TopLevelLookupException` there is no entry for the URI -/
+theorem get_error_noentry {cfg : Cfg} {s s1 : State} {u : Uri} {e : Exc}
+    (hfail : getTemplate cfg s u = (.error e, s1)) (hne : e ≠ .topLevel) : get? s1.coll u = none := by
+  cases he : get? s.coll u with
+  | none =>
+    cases hd : firstDir cfg.ndirs s.fs u with
+    | none =>
+      rw [get_miss_none he hd] at hfail
+      injection hfail with h1 _; injection h1 with h1; exact absurd h1.symm hne
+    | some d =>
+      rw [get_miss_load he hd] at hfail
+      rcases hc : construct cfg s u (d, u) with ⟨r, s'⟩
+      cases r with
+      | ok t => rw [load_ok he hc] at hfail; cases hfail
+      | error e0 =>
+        rw [load_err he hc] at hfail
+        injection hfail with _ h2; subst h2; exact get?_erase_self _ _
+  | some en =>
+    cases hc : cfg.checks with
+    | false => rw [get_hit_nocheck he hc] at hfail; cases hfail
+    | true =>
+      rw [get_hit_check he hc] at hfail
+      cases hfile : en.val.file with
+      | none => rw [check_memory hfile] at hfail; cases hfail
+      | some f =>
+        cases hfs : (stampHit s u).fs f with
+        | none =>
+          rw [check_vanished hfile hfs] at hfail
+          injection hfail with _ h2; subst h2; exact get?_erase_self _ _
+        | some file =>
+          by_cases hk : file.mtime ≤ en.val.stamp
+          · rw [check_keep hfile hfs hk] at hfail; cases hfail
+          · have hlt : en.val.stamp < file.mtime := by omega
+            rcases hcn : construct cfg { stampHit s u with coll := erase (stampHit s u).coll u } u f with ⟨r, s'⟩
+            cases r with
+            | ok t => rw [check_stale_ok hfile hfs hlt hcn] at hfail; cases hfail
+            | error e0 =>
+              rw [check_stale_err hfile hfs hlt hcn] at hfail
+              injection hfail with _ h2; subst h2; exact get?_erase_self _ _
+
 /-- what a `CompileException` out of `get_template` leaves behind: `f` is the file that failed to compile -/
 theorem get_compile_error {cfg : Cfg} {s s1 : State} {u : Uri} (hi : Inv cfg s)
     (hfail : getTemplate cfg s u = (.error .compile, s1)) :
     ∃ f file, s.fs f = some file ∧ file.broken = true ∧
       get? s1.coll u = none ∧ s1.fs = s.fs ∧ s1.clock = s.clock ∧ s1.mods = s.mods ∧
-      (cfg.moddir = true → ∀ m, s.mods u = some m → m.time < s.clock ∨ m.src ≠ f) := by
+      (cfg.moddir = true → ∀ m, s.mods u = some m → m.time < s.clock ∨ (m.late = false ∧ m.src ≠ f)) := by
   have key : ∀ (s0 : State), s0.fs = s.fs → s0.clock = s.clock → s0.mods = s.mods → get? s0.coll u = none →
       ∀ f, load cfg s0 u f = (.error .compile, s1) →
       ∃ f file, s.fs f = some file ∧ file.broken = true ∧
       get? s1.coll u = none ∧ s1.fs = s.fs ∧ s1.clock = s.clock ∧ s1.mods = s.mods ∧
-      (cfg.moddir = true → ∀ m, s.mods u = some m → m.time < s.clock ∨ m.src ≠ f) := by
+      (cfg.moddir = true → ∀ m, s.mods u = some m → m.time < s.clock ∨ (m.late = false ∧ m.src ≠ f)) := by
     intro s0 h1 h2 h3 hn f hl
     rcases hc : construct cfg s0 u f with ⟨r, s'⟩
     cases r with
